@@ -9,11 +9,10 @@ from pjplan.utils import TextTable, GREEN, YELLOW, GREY, RED
 
 
 def _validate_graph_isolation(project: WBS):
-    all_tasks = {task.id: task for task in project.tasks}
-
-    for t in all_tasks.values():
+    for t in project.tasks:
         for pr in t.predecessors:
-            if pr.id not in all_tasks and (not pr.start or not pr.end):
+            # A predecessor is outside when it belongs to another WBS (or to none): ids are unique per WBS only
+            if pr.wbs != project and (not pr.start or not pr.end):
                 raise RuntimeError(
                     "Task {t.id} ({t.name}) has predecessor {pr.id} ({pr.name}) w/o dates and outside wbs"
                 )
